@@ -105,5 +105,12 @@ theorem C12_allocations_invisible (h h' : Heap) (acts : List Act) (ha : allocOnl
   obtain ⟨ext, rfl⟩ := run_allocOnly_append acts h h' ha hr
   exact contents_append h ext fuel l c hc
 
+/-- non-vacuity: a failed Insert that had copied one node: an allocation-only run that succeeds -/
+example :
+    let shared : MNode := { keys := [5], vals := [50], links := [.ref 7, .nil], dirty := false, shared := true, owner := 0 }
+    let acts : List Act := [.alloc { shared with dirty := true, shared := false, owner := 2 }]
+    allocOnly acts ∧ (run [shared] acts).isSome = true ∧ contents [shared] 2 (.ptr 0) ≠ none := by
+  refine ⟨trivial, by decide, by decide⟩
+
 end Mast.Heap
 #print axioms Mast.Heap.C12_allocations_invisible
